@@ -198,7 +198,8 @@ _reg("C08", c08.run, translator=("T1", "T4", "T5"),
      rule="Consistent graphs built forwards from Inputs (all primitives, fan-in/out, residual/recurrent/self/parallel "
           "edges, shuffled edge and node order) with random subsets of erasable annotations erased or an Output shape "
           "replaced by a wrong one; ground truth known by construction.")
-_reg("C09", c09.run, theorems=["NirVerif.C09.iff", "NirVerif.C09.rejects"],
+_reg("C09", c09.run, translator=("T1", "T15"), module="NirVerif.Properties.C09Generated",
+     theorems=["NirVerif.C09.iff", "NirVerif.C09.rejects", "NirVerif.C09.check_errors_generated", "NirVerif.C09.checkEdge_errors"],
      rule="All multigraphs on 2 nodes with <=2 (thorough <=3) edges x 4 shape options per port, plus sampled graphs of "
           "1-5 nodes with shapes of rank 0..3, undefined ports, tuple/int32/int64 containers, cycles and parallel edges.",
      level_text="Kernel-checked: on every flat single-port graph (any topology, order, multiplicity) the modelled check "
